@@ -84,6 +84,15 @@ def err_blocks(fn):
     return out
 
 
+def dominates_ok(fn, a, b):
+    """every path from the entry to `b` that does not go through an error exit passes `a` (dominance on the CFG without
+    the error exits; the same as dominance when nothing was inlined and `a` lies before `b`)"""
+    if a == b:
+        return False
+    errs = err_blocks(fn) - {a, b}
+    return b not in fn.reachable_from(0, avoid=errs | {a}) and b in fn.reachable_from(a)
+
+
 def ok_blocks(fn):
     out = set()
     for bi, b in fn.blocks():
